@@ -323,6 +323,28 @@ PROPS['C06'] = dict(
 )
 
 
+def gen_streams(tier):
+    n = {'quick': 48000, 'extended': 300000, 'thorough': 2000000}[tier]
+    return [dict(name='generate-parse-validate', harness=['gen', str(n), '{seed}', '{shard}', '{nshards}'], driver='gen')]
+
+
+PROPS['C09'] = dict(
+    family='line', tags={'G': 'gen'},
+    theorems=['C09_line_round_trip', 'C09_line_not_exit_code', 'C09_regen_described', 'C09_regen_accepts_when_deterministic'],
+    streams=gen_streams,
+    spec_kinds=['SPEC:C09'], corr_kinds=['DIFF:generated-lines'],
+    case_format='G <m Markdown|c Cram> <a ascii|u unicode escaper> <0 create | 1 update with kept plain expectations | 2 update with quantified expectations> <hex shell expression> <exit code> <hex output>|<hex generated document>|<parse back: ok<n tests>/err/panic>|<1 = same shell expression>|<validate of the parsed test against the same output: ok/code/output>',
+    rule='outputs of 0-5 lines drawn from 26 collision shapes (modifier look-alikes, [1], [256], `$ x`, `> x`, fences, empty / whitespace-only / tab lines, ANSI, NUL, invalid UTF-8, non-ASCII, backslashes, CR, ` (no-eol)`, `x (escaped)`, `---`) and random words, '
+         'with and without final newline; exit codes 0,1,3,255; both formats; both escapers; one- and two-line commands; update flavours with kept expectations. '
+         'The real generator output is parsed by the real parser and validated by the real TestCase::validate. Non-trivial: non-empty output; distinct by case head',
+    manifest=dict(text='Machine-checked theorems (Coq): the line written for an output line parses back (model of the expectation grammar) to an unquantified expectation that matches that very line, in both escaping modes, and is never taken for an exit-code line; the expectation list written by update for a failing test always describes the output, hence passes whenever it is deterministic for it (C03) -- with a closed counterexample showing the premise is needed (known finding). Tied to /repo end to end: generate_testcases -> MarkdownParser/CramParser::parse -> TestCase::validate on generated outputs; generated expectation lines are compared with the model.',
+                  technique='Coq proof composing C11 (escaping), C08 (grammar) and C02/C03 (matcher) at line level + end-to-end differential run generate -> parse -> validate',
+                  note='Partial: the block-level composition (whole generated document parses back to one test) is proved for the parsers separately (C07) and exercised end to end, not composed into one theorem.'),
+    exhaustive={'quick': False, 'thorough': False},
+    assumptions=['outputs are given to validate as recorded (after the runner\'s CRLF translation)'],
+)
+
+
 def run_one(prop, inp, ctx):
     """re-run one case through the implementation and the model; returns CASE lines"""
     cfg = PROPS[prop]
